@@ -3,11 +3,12 @@ from __future__ import annotations
 
 import sys
 
-from .core import cleanup_scratch
+from .core import cleanup_scratch, enter_private_cwd
 from .worker import load_prop
 
 
 def main(argv) -> int:
+    enter_private_cwd()
     mod = load_prop(argv[0])
     if hasattr(mod, "warm"):
         mod.warm()
